@@ -75,6 +75,10 @@ func relPkg(path string) string {
 
 // Load type-checks /repo's current working tree from source.
 func Load(repo, tags string) (*Ctx, error) {
+	// go/packages resolves `go` through this process's PATH
+	if _, err := os.Stat("/opt/veriftools/go1.26.8/bin/go"); err == nil && !strings.HasPrefix(os.Getenv("PATH"), "/opt/veriftools/go1.26.8/bin") {
+		os.Setenv("PATH", "/opt/veriftools/go1.26.8/bin:"+os.Getenv("PATH"))
+	}
 	env := []string{}
 	for _, e := range os.Environ() {
 		k := e[:strings.IndexByte(e, '=')+0]
@@ -84,6 +88,11 @@ func Load(repo, tags string) (*Ctx, error) {
 		switch k {
 		case "GOFLAGS", "GOWORK", "GOPROXY", "GOTOOLCHAIN", "GOSUMDB", "GOARCH", "GOOS":
 			continue
+		case "PATH":
+			// go/packages shells out to `go`; /repo needs go >= 1.25
+			if _, err := os.Stat("/opt/veriftools/go1.26.8/bin/go"); err == nil {
+				e = "PATH=/opt/veriftools/go1.26.8/bin:" + e[len("PATH="):]
+			}
 		}
 		env = append(env, e)
 	}
